@@ -215,18 +215,33 @@ def _masses_setter(case, res, u):
         sm = symnp.unwrap(np.asarray(ph.supercell.masses, dtype=object))
         um = symnp.unwrap(np.asarray(ph.unitcell.masses, dtype=object))
     want_s = [ms[case.p2p[case.s2p[k]]] for k in range(case.n_s)]
-    v, _, _ = assert_equal(res, "masses_primitive", pm, ms, A, tol=0)
-    _record(res, u, "masses_primitive", v, None, replayable=False)
-    v, _, _ = assert_equal(res, "masses_supercell", sm, want_s, A, tol=0)
-    _record(res, u, "masses_supercell", v, None, replayable=False)
     u2s = ph.supercell.u2s_map
-    v, _, _ = assert_equal(res, "masses_unitcell", um, [want_s[k] for k in u2s], A, tol=0)
-    _record(res, u, "masses_unitcell", v, None, replayable=False)
+    for sub, got, want in (("masses_primitive", pm, ms), ("masses_supercell", sm, want_s), ("masses_unitcell", um, [want_s[k] for k in u2s])):
+        v, _, _ = assert_equal(res, sub, got, want, A, tol=0)
+        if v == "sat":
+            ok2, what = replay_masses(u[1], u[2])
+            (res.violations if ok2 else res.unconfirmed).append({"key": "%s:%s:%s" % (PID, sub, "/".join(str(t) for t in u[1:])), "what": what, "replay": {"unit": [str(t) for t in u]}})
+        else:
+            _record(res, u, sub, v, None, replayable=False)
     # unit-cell atom a and supercell atom u2s[a] are the same physical atom: species must agree
     ok = all(ph.unitcell.symbols[a] == ph.supercell.symbols[k] for a, k in enumerate(u2s))
     if not ok:
         raise HarnessError("u2s map does not preserve species")
     res.twins.append({"name": "masses distinct symbols", "verdict": "sat" if n_p >= 1 else "unsat"})
+
+
+@symnp.outside_session
+def replay_masses(gid, sid):
+    """concrete: after Phonopy.masses = m every supercell / unit-cell atom carries the mass of the primitive atom it is an image of"""
+    ph = geometries.phonopy_obj(gid, sid)
+    n_p = len(ph.primitive)
+    m = np.array([10.0 + 7.0 * k for k in range(n_p)])
+    ph.masses = m
+    p2p = ph.primitive.p2p_map; s2p = ph.primitive.s2p_map
+    want_s = np.array([m[p2p[s2p[k]]] for k in range(len(ph.supercell))])
+    d = max(float(np.abs(ph.primitive.masses - m).max()), float(np.abs(ph.supercell.masses - want_s).max()),
+            float(np.abs(ph.unitcell.masses - want_s[ph.supercell.u2s_map]).max()))
+    return d > 1e-12, "Phonopy.masses = m: primitive/supercell/unit-cell masses are not those of the corresponding primitive atoms (largest deviation %.3g) on %s/%s" % (d, gid, sid)
 
 
 def _chk(res, u, name, lhs, rhs, A, xs, case, compact, replay_spec):
